@@ -144,7 +144,21 @@ def explore_job(run_fn: Callable, params: dict, max_paths: int = 20000, max_seco
         except RecursionError as ex:
             res.errors.append("harness exception: RecursionError")
         except Exception as ex:  # an exception of the code under test that the harness did not expect
-            res.errors.append(f"harness exception: {type(ex).__name__}: {ex} @ " + _where())
+            crash = f"harness exception: {type(ex).__name__}: {ex} @ " + _where()
+            # a crash *after* a violation was recorded is most likely a consequence of it: replay the violations first
+            confirmed = 0
+            for v in ctx.violations:
+                rec = {'label': v.label, 'info': v.info, 'model': v.model, 'choices': v.choices, 'params': params}
+                try:
+                    c3 = run_concrete(run_fn, params, v.model, v.choices)
+                    ok = any(l == v.label and r == 'violated' for l, r in c3.check_results)
+                except BaseException:  # noqa: the concrete run crashes the same way; checks made before the crash are lost
+                    ok = _replay_until_crash(run_fn, params, v)
+                if ok:
+                    confirmed += 1
+                    res.violations.append(rec)
+            if not confirmed:
+                res.errors.append(crash)
         stack.extend(reversed(ctx.pending))
         if not completed:
             ctx.close()
@@ -225,6 +239,19 @@ def explore_job(run_fn: Callable, params: dict, max_paths: int = 20000, max_seco
     res.stats.pop('_nonground_seen', None)
     res.wall_s = time.perf_counter() - t0
     return res
+
+
+def _replay_until_crash(run_fn, params, v) -> bool:
+    """Concrete replay where the harness itself crashes after the violated check: inspect the checks made before the crash."""
+    reset_env()
+    ctx = Ctx('conc', model=v.model, choices=v.choices)
+    try:
+        with warnings.catch_warnings():
+            warnings.simplefilter('ignore')
+            run_fn(ctx, params)
+    except BaseException:  # noqa
+        pass
+    return any(l == v.label and r == 'violated' for l, r in ctx.check_results)
 
 
 def _fmt_dec(e):
